@@ -166,6 +166,7 @@ func fieldPath(fieldDescs protoreflect.FieldDescriptors, names ...string) []prot
 
 func (p *path) alive() bool {
 	return len(p.methods) != 0 ||
+		p.methodAll != nil ||
 		len(p.variables) != 0 ||
 		len(p.segments) != 0
 }
@@ -198,35 +199,41 @@ func (p *path) clone() *path {
 	return pc
 }
 
-// delRule deletes the HTTP rule to the path.
+// delRule deletes every HTTP rule of the method from the path.
 func (p *path) delRule(name string) bool {
+	var ok bool
 	for k, s := range p.segments {
-		if ok := s.delRule(name); ok {
+		if s.delRule(name) {
+			ok = true
 			if !s.alive() {
 				delete(p.segments, k)
 			}
-			return ok
 		}
 	}
 
-	for i, v := range p.variables {
-		if ok := v.next.delRule(name); ok {
+	vars := p.variables[:0]
+	for _, v := range p.variables {
+		if v.next.delRule(name) {
+			ok = true
 			if !v.next.alive() {
-				p.variables = append(
-					p.variables[:i], p.variables[i+1:]...,
-				)
+				continue
 			}
-			return ok
 		}
+		vars = append(vars, v)
 	}
+	p.variables = vars
 
 	for k, m := range p.methods {
 		if m.name == name {
 			delete(p.methods, k)
-			return true
+			ok = true
 		}
 	}
-	return false
+	if p.methodAll != nil && p.methodAll.name == name {
+		p.methodAll = nil
+		ok = true
+	}
+	return ok
 }
 
 // addRule adds the HTTP rule to the path.
